@@ -129,6 +129,26 @@ func boundsFor(terms []string, rng *rand.Rand) [][]byte {
 	return out
 }
 
+// checkEmptyEndBound: an end bound that is present but empty lies below every
+// term: nothing is in [start, ""). Only for dictionaries without the empty
+// term (vellum treats that one inconsistently under an empty end bound).
+func checkEmptyEndBound(r *Report, tag, f string, dict segment.TermDictionary, terms []string) {
+	if len(terms) == 0 || terms[0] == "" {
+		return
+	}
+	for _, start := range [][]byte{nil, []byte(terms[0])} {
+		it := dict.AutomatonIterator(nil, start, []byte{})
+		if e, err := it.Next(); err != nil || e != nil {
+			t := "<nil>"
+			if e != nil {
+				t = short([]byte(e.Term))
+			}
+			r.Fail("dict-iter-term", "%s: field %q range [%q, \"\") with an empty, non-nil end bound yields %s, %v; want nothing", tag, f, start, t, err)
+		}
+		r.Inc("dict_empty_end_bounds", 1)
+	}
+}
+
 // CheckDictionary: slice "dictionary" of the full-surface oracle (C08).
 // light: fewer automaton/range combinations.
 func CheckDictionary(r *Report, tag string, seg segment.Segment, m *model.Seg, rng *rand.Rand, light bool) {
@@ -148,6 +168,7 @@ func CheckDictionary(r *Report, tag string, seg segment.Segment, m *model.Seg, r
 				r.Fail("dict-contains", "%s: field %q Contains(%s)=%v,%v", tag, f, short([]byte(t)), ok, err)
 			}
 		}
+		checkEmptyEndBound(r, tag, f, dict, terms)
 		auts := automataFor(terms, rng)
 		bounds := boundsFor(terms, rng)
 		if light {
